@@ -388,6 +388,11 @@ def phi2_section(ctx, meas, drivers_ok):
     cases += [(rng.uniform(-6, 6), rng.uniform(-6, 6), rng.uniform(-1, 1)) for _ in range(1500)]
     cases += [(rng.uniform(-3, 3), rng.uniform(-3, 3), rng.choice([-1, 1]) * (1 - 10 ** rng.uniform(-9, -1))) for _ in range(500)]
     cases += [(h, k, r) for h in (35.5, -35.5, 36.0) for k in (0.0, 1.0, -36.0) for r in (0.0, 0.5, -0.9, 0.95)]
+    # far tails: beyond |h| = 35 the series branch is the only one that stays finite; every sign pattern and every correlation
+    # branch (|r| < 0.7, >= 0.7, exactly +-1) must return the limit value there (seed C20-12: NaN for |r| >= 0.7 in the far tails)
+    ft = (35.5, 36.0, 37.0, 37.9, 38.0, 40.0, 100.0)
+    cases += [(sa * a, sb * b, sr * r) for a in ft for b in ft for sa in (1, -1) for sb in (1, -1)
+              for r in (0.0, 0.5, 0.7, 0.8, 0.9, 0.95, 0.999, 1.0) for sr in (1, -1)]
     cases = [(float(a), float(b), float(c)) for a, b, c in cases]
     for name in ('phi2', 'M'):
         fn = getattr(fm, name)
@@ -418,7 +423,7 @@ def phi2_section(ctx, meas, drivers_ok):
                 ctx.broke(f'model driver failed on phi2g: {str(e)[:300]}')
         nbad = 0
         step = 1 if not ctx.quick() else 3
-        for c, v in list(zip(sub, comp))[::step]:
+        for c, v in [cv for i, cv in enumerate(zip(sub, comp)) if i % step == 0 or abs(cv[0][0]) > 30 or abs(cv[0][1]) > 30]:
             h, k, r = c
             if abs(h) > 30 or abs(k) > 30:
                 ref = 0.0 if min(h, k) < -30 else float(ndtr1(min(h, k)))
